@@ -1179,9 +1179,6 @@ class Interpreter : public EvaluatorInterface {
     void print_formatted(const ASTNode *format_str, const ASTNode *arg_list);
     void validate_struct_recursion_rules();
 
-    // v0.10.0: デストラクタ呼び出し中フラグ（無限再帰防止）
-    bool is_calling_destructor_ = false;
-
     // N次元配列リテラル処理の再帰関数
     void process_ndim_array_literal(const ASTNode *literal_node, Variable &var,
                                     TypeInfo elem_type, int &flat_index,
@@ -1201,9 +1198,6 @@ class Interpreter : public EvaluatorInterface {
     const std::string &get_current_function_name() const {
         return current_function_name;
     }
-
-    // v0.13.1: デストラクタ実行中かチェック
-    bool is_calling_destructor() const { return is_calling_destructor_; }
 
     // エラー表示ヘルパー関数
     void throw_runtime_error_with_location(const std::string &message,
